@@ -944,6 +944,19 @@ pub fn c19(ctx: &Ctx) {
 						},
 					}
 				}
+				// over the library's own slice input: what the counter says is what the slice gave up,
+				// also after a failed decode
+				{
+					rep.evaluations += 1;
+					rep.count("slice_counted_decodes");
+					match catch(|| (d.counted_slice)(&b)) {
+						Err(p) => rep.violation(&format!("counted-panic:{}", ops.name), format!("{}: decode through CountedInput<&[u8]> panicked: {p}", ops.name), replay_json("C19", ops, &b, &[])),
+						Ok((ok, count, advanced)) =>
+							if count != advanced as u64 {
+								rep.violation(&format!("counted-slice:{}", ops.name), format!("{}: count() = {count} after {} but the wrapped slice advanced by {advanced} bytes on {}", ops.name, if ok { "success" } else { "failure" }, hex(&b[..b.len().min(48)])), replay_json("C19", ops, &b, &[]));
+							},
+					}
+				}
 				if rep.want_sample() && !b.is_empty() {
 					rep.sample(sample_json(ops, origin, &b, "count() checked after every request"));
 				}
